@@ -788,7 +788,7 @@ def replay(ctx, data):
     return 0 if ok else 1
 
 
-LEVEL_TEXT = ("Proof (Coq, 12 theorems): html_to_nodes returns exactly one raw node with the (GFM-filtered) input whenever no "
+LEVEL_TEXT = ("Proof (Coq, 17 theorems): html_to_nodes returns exactly one raw node with the (GFM-filtered) input whenever no "
               "extension is on, the stripped tree is empty or some top-level element is not img / div.admonition, never takes the "
               "parse-failure branch (C17_passthrough) and never lets an exception escape (C17_no_escape); the character-level model "
               "of RE_FLOW.subn leaves no '<' or '</' followed ASCII-case-insensitively by a disallowed tag name and a delimiter, "
@@ -798,10 +798,16 @@ LEVEL_TEXT = ("Proof (Coq, 12 theorems): html_to_nodes returns exactly one raw n
               "of the Markdown spelling (C17_img_equiv, C17_admonition_directive, C17_admonition_equiv, C17_option_keys); the "
               "strip-':' step yields the YAML block (C17_option_block_extracted) and the modelled option reader returns every "
               "attribute value unchanged (C17_option_values_carried; C17_unquoted_value_refuted for the pre-fix code). Regex "
-              "structure, key sets and f-string templates are regenerated from html_to_nodes.py on every run; the decision logic "
-              "is tied to the code by differential correspondence with the real html.parser events.")
+              "structure, key sets and f-string templates are regenerated from html_to_nodes.py on every run. Source-translation "
+              "tie: option_line, default_html and html_to_nodes (decision chain, per-child loop body with the img / admonition "
+              "construction, on top of the regenerated parse_html code) are regenerated statement by statement into "
+              "coq/Gen/HtmlNodesSrc.v; C17_option_line_src, C17_passthrough_src, C17_img_equiv_src and "
+              "C17_admonition_directive_src hold of the regenerated code. rstrip() of an option block whose last value is empty is "
+              "proved to keep every value readable (C17_admonition_options_carried). The hand-written model is additionally tied "
+              "by differential correspondence with the real html.parser events.")
 LEVEL_NOTE = ("Trusted: Coq kernel; hand transcription of html_to_nodes into coq/Html/HtmlToNodes.v (correspondence); html.parser, "
               "markdown-it and the docutils directive classes as oracles; equality of the resulting docutils nodes with those of "
               "the directive spelling is checked by the metamorphic search on the implementation, not proved (the directive "
-              "classes are not modelled); the rstrip() of the admonition option block when its last value is empty is covered by "
-              "correspondence only.")
+              "classes are not modelled); gen/pysrc.py + gen/c17_src.py and the domain mapping coq/Html/NodesPrims.v (docutils node "
+              "constructors, renderer flags, regex calls as the regenerated table-driven functions) are trusted; the _src theorems "
+              "are per loop iteration, no global equality of the regenerated html_to_nodes with the hand-written model is claimed.")
